@@ -134,7 +134,7 @@ def generate(rng, tier, index):
 
 def classify(scn, cls, detail, res=None):
     sig = {'property': ID, 'class': cls, 'frontend': scn['frontend'], 'framing': scn['framing']}
-    for k in ('where', 'exc', 'stage', 'conn', 'fc', 'hk'):
+    for k in ('where', 'exc', 'stage', 'conn', 'fc', 'hk', 'overlong_pdu'):
         if k in detail:
             sig[k] = detail[k]
     if sc.binary_delim(scn, res):
@@ -174,7 +174,9 @@ def execute(scn):
             hk = next((k for (k, raw) in hitems if needle and needle in raw), None) or \
                 next((k for (k, raw) in hitems if needle[:4] in raw), '?')
             if e['pdu'] not in just_pdus:
-                viol.append(('unjustified-write', {'fc': e['pdu'][0] if e['pdu'] else None, 'hk': hk},
+                want_len = codec.request_len(e['pdu'])
+                overlong = want_len not in (None, -1) and want_len < len(e['pdu'])
+                viol.append(('unjustified-write', {'fc': e['pdu'][0] if e['pdu'] else None, 'hk': hk, 'overlong_pdu': overlong},
                              'datastore changed by pdu=%s, but the bytes received contain no valid frame for it' % e['pdu'].hex()[:60]))
             elif not u['effect_ok']:
                 viol.append(('wrong-write-effect', {'fc': e['pdu'][0], 'hk': hk},
@@ -188,10 +190,16 @@ def execute(scn):
         if cls in ('response-missing', 'wrong-response', 'wrong-exception', 'output-garbled', 'response-extra'):
             conn = 'probe' if ('connection %d' % pc in msg or 'peer %d' % pc in msg) else 'good'
             if kind == 'sync_serial':
+                # one shared line, no fresh connection: what the hostile bytes may cost is C11's
+                # subject (resynchronisation within a bounded amount of traffic); here only
+                # "never stops serving" is demanded: the LAST request on the line must be served
+                nreq = sum(1 for r in scn['conns'][0] if r.get('raw') is None)
+                if 'request #%d ' % (nreq - 1) not in msg:
+                    continue
                 conn = 'line'
             viol.append(('service-' + cls, dict(detail, conn=conn, hk=hk), msg))
     for cls, detail, msg in viol:
-        d = {k: v for k, v in detail.items() if k in ('where', 'exc', 'stage', 'conn', 'fc', 'hk')}
+        d = {k: v for k, v in detail.items() if k in ('where', 'exc', 'stage', 'conn', 'fc', 'hk', 'overlong_pdu')}
         out['violations'].append({'sig': classify(scn, cls, d, res), 'msg': msg})
     nh = sum(1 for reqs in scn['conns'] for r in reqs if r.get('raw') is not None)
     out['nontrivial'] = nh > 0
